@@ -10,7 +10,8 @@ B  tie: containers built three ways (content-index sheets, from_dict, direct API
    with the model's answer (`uuid.run`), invented uuids canonicalised by first occurrence.
    The containers may list groups before validation (also as the target sheets are parsed
    into), some with query/status/system/count; several names may share one explicit uuid.
-C  direct oracle: the property's own statement evaluated on the real output.
+C  direct oracle: the property's own statement evaluated on the real output (every render of a
+   staged history; its last render also against the same content built in one go).
 """
 from __future__ import annotations
 
@@ -25,7 +26,7 @@ import re
 from .. import core, par
 
 MANIFEST = dict(
-    text="Proof: Lean theorems assign_functional / groups_listed / group_list_sound / defined_flow_uuid / explicit_wins (every site, every position) / conflict_rejected / conflict_sound / trigger_check_exact / trigger_unknown_flow_rejected_partial / validate_idem / container_validate_idem over a hand model of UUIDDict and RapidProContainer.update_global_uuids, for all occurrence lists, all starting dictionaries and any number of repeated validations (unbounded); tied to the code by a differential run over containers built through content-index sheets, from_dict and direct API calls (names shared across flows/campaigns/triggers, explicit uuids on random subsets of occurrences in random order, 1-3 renders) and by T1 call sequences regenerated from the source. The property's own statement is evaluated on every real render() output.",
+    text="Proof: Lean theorems assign_functional / groups_listed / group_list_sound / defined_flow_uuid / explicit_wins (every site, every position) / conflict_rejected / conflict_sound / trigger_check_exact / trigger_unknown_flow_rejected_partial / validate_idem / container_validate_idem over a hand model of UUIDDict and RapidProContainer.update_global_uuids, for all occurrence lists, all starting dictionaries and any number of repeated validations (unbounded); tied to the code by a differential run over containers built through content-index sheets, from_dict and direct API calls (names shared across flows/campaigns/triggers, explicit uuids on random subsets of occurrences in random order, 1-3 renders; also containers that grow through the API between renders — stage_consistent / stage_explicit_wins over Uuid.runStage) and by T1 call sequences regenerated from the source. The property's own statement is evaluated on every real render() output.",
     ref="§5 C06",
     note="Trusts: Lean kernel (axioms audited each run), the differential harness (spec → model request translation, output scanner) and Driver JSON codec, Python dict insertion order, uuid4 freshness (checked, not proved). `trigger for a flow that does not exist` is proved for the reading the code implements (flow name not mentioned anywhere) — the full reading is false on the unchanged tree (known finding F-C06-b, negative witness in Lean); obj_id inside inserted blocks was lost (F-C06-a, fixed).",
     technique="Lean 4 proof (induction over the occurrence list, dictionary invariants) + randomized model/code correspondence at render() output",
@@ -170,6 +171,110 @@ def build_objects(spec):
         if spec["mode"] == "api":
             container.add_trigger(tr)
     return container, flows, campaigns, triggers
+
+
+def grow_container(spec, on_stage, made_flows=None):
+    """A staged history on the real classes: stage s adds, through the public API, the flows
+    (add_flow), nodes (FlowContainer.add_node), group actions (BaseNode.add_action), has_group
+    cases (SwitchRouterNode.add_choice), campaigns (add_campaign), events (Campaign.add_event)
+    and triggers (add_trigger) whose stage is s — to the objects that are already there when
+    the parent is older.  `on_stage(s, container)` is called after every stage."""
+    from rpft.rapidpro.models.actions import (
+        AddContactGroupAction, Group, RemoveContactGroupAction, SendMessageAction,
+    )
+    from rpft.rapidpro.models.campaigns import Campaign, CampaignEvent
+    from rpft.rapidpro.models.containers import FlowContainer, RapidProContainer
+    from rpft.rapidpro.models.nodes import BasicNode, EnterFlowNode, SwitchRouterNode
+    from rpft.rapidpro.models.triggers import Trigger
+
+    container = RapidProContainer(groups=listed_groups(spec))
+    flow_objs, node_objs, camp_objs = {}, {}, {}
+    first = 0
+    if spec["mode"] == "dict":
+        # the first stage is an imported export (from_dict), the later ones edit it through the API
+        container = RapidProContainer.from_dict(build_dict(stage_subspec(spec, 0)))
+        for i, fc in zip([i for i, f in enumerate(spec["flows"]) if stage_of(f) == 0], container.flows):
+            flow_objs[i] = fc
+            if made_flows is not None:
+                made_flows.append(fc.uuid)
+            old = [j for j, nd in enumerate(spec["flows"][i]["nodes"]) if stage_of(nd) == 0]
+            assert len(old) == len(fc.nodes)
+            for j, node in zip(old, fc.nodes):
+                node_objs[i, j] = node
+        for i, camp in zip([i for i, c in enumerate(spec["campaigns"]) if stage_of(c) == 0], container.campaigns):
+            camp_objs[i] = camp
+        on_stage(0, container)
+        first = 1
+    for s in range(first, spec["stages"]):
+        for i, f in enumerate(spec["flows"]):
+            if stage_of(f) > s:
+                continue
+            if stage_of(f) == s:
+                flow_objs[i] = FlowContainer(f["name"], uuid=f["uuid"])
+                if made_flows is not None:
+                    made_flows.append(flow_objs[i].uuid)
+            fc = flow_objs[i]
+            for j, nd in enumerate(f["nodes"]):
+                ns = max(stage_of(nd), stage_of(f))
+                if ns > s:
+                    continue
+                if ns == s:
+                    if nd["t"] == "actions":
+                        node = BasicNode()
+                    elif nd["t"] == "enter":
+                        node = EnterFlowNode(flow_name=nd["flow"][0], flow_uuid=nd["flow"][1])
+                    elif nd["t"] == "split":
+                        node = SwitchRouterNode("@contact.groups")
+                    else:
+                        node = BasicNode()
+                        node.add_action(SendMessageAction(text="hello"))
+                    node_objs[i, j] = node
+                node = node_objs[i, j]
+                if nd["t"] == "actions":
+                    for a in nd["actions"]:
+                        if max(ns, stage_of(a)) == s:
+                            groups = [Group(n, u) for n, u in a["groups"]]
+                            node.add_action(AddContactGroupAction(groups=groups) if a["t"] == "add" else RemoveContactGroupAction(groups=groups))
+                elif nd["t"] == "split":
+                    for c, ((n, u), cs) in enumerate(zip(nd["cases"], case_stages(nd))):
+                        if max(ns, cs) == s:
+                            node.add_choice("@contact.groups", "has_group", [u, n], f"cat{c}", None)
+                if ns == s:
+                    fc.add_node(node)
+            if stage_of(f) == s:
+                if spec.get("add_flow", True):
+                    container.add_flow(fc)
+                else:
+                    container.flows.append(fc)
+        for i, c in enumerate(spec["campaigns"]):
+            if stage_of(c) > s:
+                continue
+            if stage_of(c) == s:
+                if c.get("by_name"):
+                    camp_objs[i] = Campaign(c["name"], group_name=c["group"][0], group_uuid=c["group"][1])
+                else:
+                    camp_objs[i] = Campaign(c["name"], group=Group(c["group"][0], c["group"][1]))
+            for e in c["events"]:
+                if max(stage_of(c), stage_of(e)) != s:
+                    continue
+                if e["type"] == "F":
+                    ev = CampaignEvent(3, "D", "F", -1, "I", relative_to_label="Created On",
+                                       flow_name=e["flow"][0], flow_uuid=e["flow"][1])
+                else:
+                    kw = dict(flow_name=e["flow"][0], flow_uuid=e["flow"][1]) if e.get("flow") else {}
+                    ev = CampaignEvent(3, "D", "M", -1, "I", relative_to_label="Created On",
+                                       message={"eng": "hi"}, base_language="eng", **kw)
+                camp_objs[i].add_event(ev)
+            if stage_of(c) == s:
+                container.add_campaign(camp_objs[i])
+        for t in spec["triggers"]:
+            if stage_of(t) == s:
+                container.add_trigger(Trigger(
+                    "K", keywords=["kw"], flow_name=t["flow"][0], flow_uuid=t["flow"][1],
+                    group_names=[g[0] for g in t["groups"]], group_uuids=[g[1] for g in t["groups"]],
+                    exclude_group_names=[g[0] for g in t["exclude"]], exclude_group_uuids=[g[1] for g in t["exclude"]]))
+        on_stage(s, container)
+    return container
 
 
 def build_dict(spec):
@@ -342,28 +447,86 @@ def model_request(spec):
                   "group": [c["group"][0], None]} for c in spec["campaigns"]]
         trigs = [{"flow": [t["flow"][0], None], "groups": [[g[0], None] for g in t["groups"]],
                   "exclude": [[g[0], None] for g in t["exclude"]]} for t in spec["triggers"]]
+    elif spec.get("stages"):
+        return staged_request(spec)
     else:
-        for i, f in enumerate(spec["flows"]):
-            nodes = []
-            for nd in f["nodes"]:
-                if nd["t"] == "actions":
-                    nodes.append({"actions": [["group", n, u] for a in nd["actions"] for n, u in a["groups"]], "cases": []})
-                elif nd["t"] == "enter":
-                    nodes.append({"actions": [["flow", nd["flow"][0], nd["flow"][1]]], "cases": []})
-                elif nd["t"] == "split":
-                    nodes.append({"actions": [], "cases": [[n, u] for n, u in nd["cases"]]})
-            fu = f["uuid"] or flow_placeholder(i)
-            flows.append({"name": f["name"], "uuid": fu, "nodes": nodes})
-            if mode == "api" and spec.get("add_flow", True):
-                pre.append(["flow", f["name"], fu])
-        groups = [[n, u] for n, u in spec["groups"]]
-        camps = [{"events": [[e["flow"][0] if e.get("flow") else None, e["flow"][1] if e.get("flow") else None, e["type"] == "F"]
-                             for e in c["events"]],
-                  "group": list(c["group"])} for c in spec["campaigns"]]
-        trigs = [{"flow": list(t["flow"]), "groups": [list(g) for g in t["groups"]],
-                  "exclude": [list(g) for g in t["exclude"]]} for t in spec["triggers"]]
+        cont = object_container(spec)
+        if mode == "api" and spec.get("add_flow", True):
+            pre = [["flow", f["name"], f["uuid"]] for f in cont["flows"]]
+        return {"op": "uuid.run", "pre": pre, "renders": spec["renders"], "container": cont}
     return {"op": "uuid.run", "pre": pre, "renders": spec["renders"],
             "container": {"groups": groups, "flows": flows, "campaigns": camps, "triggers": trigs}}
+
+
+KEPT = {"kept": True}
+
+
+def stage_of(x):
+    return x.get("stage", 0)
+
+
+def case_stages(nd):
+    return (list(nd.get("case_stages") or []) + [stage_of(nd)] * len(nd["cases"]))[:len(nd["cases"])]
+
+
+def object_container(spec, upto=None, kept_below=0):
+    """The model's container of a dict / api spec.  `upto=s`: only what a staged history has
+    added up to stage s; the references of the objects added BEFORE stage `kept_below` are
+    replaced by the marker KEPT (they carry what the previous validation assigned)."""
+    def on(x_stage):
+        return upto is None or x_stage <= upto
+
+    def ref(name, u, x_stage):
+        return [name, KEPT if x_stage < kept_below else u]
+
+    flows = []
+    for i, f in enumerate(spec["flows"]):
+        if not on(stage_of(f)):
+            continue
+        nodes = []
+        for nd in f["nodes"]:
+            ns = max(stage_of(nd), stage_of(f))
+            if not on(ns):
+                continue
+            if nd["t"] == "actions":
+                nodes.append({"actions": [["group"] + ref(n, u, max(ns, stage_of(a))) for a in nd["actions"] if on(max(ns, stage_of(a)))
+                                          for n, u in a["groups"]], "cases": []})
+            elif nd["t"] == "enter":
+                nodes.append({"actions": [["flow"] + ref(nd["flow"][0], nd["flow"][1], ns)], "cases": []})
+            elif nd["t"] == "split":
+                nodes.append({"actions": [], "cases": [ref(n, u, max(ns, cs)) for (n, u), cs in zip(nd["cases"], case_stages(nd)) if on(max(ns, cs))]})
+        flows.append({"name": f["name"], "uuid": f["uuid"] or flow_placeholder(i), "nodes": nodes})
+    groups = [[n, u] for n, u in spec["groups"]]
+    camps = []
+    for c in spec["campaigns"]:
+        if not on(stage_of(c)):
+            continue
+        evs = []
+        for e in c["events"]:
+            es = max(stage_of(c), stage_of(e))
+            if on(es):
+                fl = e["flow"] if e.get("flow") else [None, None]
+                evs.append(ref(fl[0], fl[1], es) + [e["type"] == "F"])
+        camps.append({"events": evs, "group": ref(c["group"][0], c["group"][1], stage_of(c))})
+    trigs = [{"flow": ref(t["flow"][0], t["flow"][1], stage_of(t)), "groups": [ref(g[0], g[1], stage_of(t)) for g in t["groups"]],
+              "exclude": [ref(g[0], g[1], stage_of(t)) for g in t["exclude"]]} for t in spec["triggers"] if on(stage_of(t))]
+    return {"groups": groups, "flows": flows, "campaigns": camps, "triggers": trigs}
+
+
+def staged_request(spec):
+    """A container built in `stages` steps through the public API and validated / rendered after
+    every step: stage s adds the flows / nodes / actions / has_group cases / campaigns / events /
+    triggers whose `stage` is s (to the objects that are already there, when their parent is
+    older).  `container` is the final content (what the one-go twin holds)."""
+    stages, pre_all = [], []
+    for s in range(spec["stages"]):
+        pre = []
+        if spec.get("add_flow", True) and not (spec["mode"] == "dict" and s == 0):  # stage 0 of a dict history is from_dict
+            pre = [["flow", f["name"], f["uuid"] or flow_placeholder(i)] for i, f in enumerate(spec["flows"]) if stage_of(f) == s]
+        pre_all += pre
+        stages.append({"pre": pre, "container": object_container(spec, upto=s, kept_below=s), "renders": spec["stage_renders"][s]})
+    return {"op": "uuid.staged", "stages": stages, "pre": pre_all, "renders": sum(spec["stage_renders"]),
+            "container": object_container(spec), "stage0": stages[0]["container"]}
 
 
 def flat_inputs(req):
@@ -607,8 +770,25 @@ def run_real(spec, req):
                 parser.parse_all_triggers(container)
             elif spec["mode"] == "sheets":
                 container = ContentIndexParser(_mem_reader(build_sheets(spec))).parse_all()
-            elif spec["mode"] == "dict":
+            elif spec["mode"] == "dict" and not spec.get("stages"):
                 container = RapidProContainer.from_dict(build_dict(spec))
+            elif spec.get("stages"):
+                res["out_stage"] = []
+
+                res["flow_uuids"] = []   # filled as the flows are constructed (add_flow may raise)
+
+                def on_stage(st, container):
+                    if st == 0:
+                        res["pre_walk"] = walk_objects(container)
+                    for _ in range(spec["stage_renders"][st]):
+                        res["outs"].append(json.loads(json.dumps(container.render())))
+                        res["out_stage"].append(st)
+
+                container = grow_container(spec, on_stage, res["flow_uuids"])
+                res["dicts"] = {"flow_dict": list(container.uuid_dict.flow_dict.items()),
+                                "group_dict": list(container.uuid_dict.group_dict.items())}
+                res["logs"] = list(cap.records)
+                return res
             else:
                 container, _, _, _ = build_objects(spec)
             res["pre_walk"] = walk_objects(container)
@@ -629,10 +809,117 @@ def run_real(spec, req):
     return res
 
 
-def check_case(spec, req, model, real):
+def staged_slots(spec):
+    """(kind, name, stage, uuid or None, is a flow definition) of every place of a staged spec"""
+    for n, u in spec["groups"]:
+        yield "group", n, 0, u or None, False
+    for i, f in enumerate(spec["flows"]):
+        yield "flow", f["name"], stage_of(f), f["uuid"] or flow_placeholder(i), True
+        for nd in f["nodes"]:
+            ns = max(stage_of(nd), stage_of(f))
+            if nd["t"] == "actions":
+                for a in nd["actions"]:
+                    for n, u in a["groups"]:
+                        yield "group", n, max(ns, stage_of(a)), u or None, False
+            elif nd["t"] == "enter":
+                yield "flow", nd["flow"][0], ns, nd["flow"][1] or None, False
+            elif nd["t"] == "split":
+                for (n, u), cs in zip(nd["cases"], case_stages(nd)):
+                    yield "group", n, max(ns, cs), u or None, False
+    for c in spec["campaigns"]:
+        yield "group", c["group"][0], stage_of(c), c["group"][1] or None, False
+        for e in c["events"]:
+            if e.get("flow"):
+                yield "flow", e["flow"][0], max(stage_of(c), stage_of(e)), e["flow"][1] or None, False
+    for t in spec["triggers"]:
+        yield "flow", t["flow"][0], stage_of(t), t["flow"][1] or None, False
+        for g in t["groups"] + t["exclude"]:
+            yield "group", g[0], stage_of(t), g[1] or None, False
+
+
+def late_explicit(spec):
+    """(kind, name) whose FIRST explicit uuid arrives at a later stage than the name itself: the
+    name has been validated — bound to an invented uuid, rendered — before anybody said which
+    uuid it has.  The unchanged code rejects such a history (`has multiple uuids`: the invented
+    one and the explicit one; for a flow defined after it was referenced, add_flow itself raises);
+    the property's text does not say what should happen, the main stream stays away from it."""
+    if not spec.get("stages"):
+        return []
+    first, first_ex = {}, {}
+    for kind, name, stg, u, _ in staged_slots(spec):
+        first[kind, name] = min(first.get((kind, name), stg), stg)
+        if u:
+            first_ex[kind, name] = min(first_ex.get((kind, name), stg), stg)
+    return sorted(k for k, stg in first_ex.items() if stg > first[k])
+
+
+def stage_subspec(spec, upto):
+    """the content a staged history holds after stage `upto`, as a plain (unstaged) spec"""
+    sp = copy.deepcopy(spec)
+    sp["flows"] = [f for f in sp["flows"] if stage_of(f) <= upto]
+    for f in sp["flows"]:
+        f["nodes"] = [nd for nd in f["nodes"] if stage_of(nd) <= upto]
+        for nd in f["nodes"]:
+            if nd["t"] == "actions":
+                nd["actions"] = [a for a in nd["actions"] if stage_of(a) <= upto]
+            elif nd["t"] == "split":
+                nd["cases"] = [g for g, cs in zip(nd["cases"], case_stages(nd)) if cs <= upto]
+    sp["campaigns"] = [c for c in sp["campaigns"] if stage_of(c) <= upto]
+    for c in sp["campaigns"]:
+        c["events"] = [e for e in c["events"] if stage_of(e) <= upto]
+    sp["triggers"] = [t for t in sp["triggers"] if stage_of(t) <= upto]
+    return twin_of(sp)
+
+
+def twin_of(spec):
+    """the same final content built in one go (and rendered once)"""
+    sp = copy.deepcopy(spec)
+    for key in ("stages", "stage_renders"):
+        sp.pop(key, None)
+    sp["renders"] = 1
+    for f in sp["flows"]:
+        f.pop("stage", None)
+        for nd in f["nodes"]:
+            nd.pop("stage", None)
+            nd.pop("case_stages", None)
+            for a in nd.get("actions") or []:
+                a.pop("stage", None)
+    for c in sp["campaigns"]:
+        c.pop("stage", None)
+        for e in c["events"]:
+            e.pop("stage", None)
+    for t in sp["triggers"]:
+        t.pop("stage", None)
+    return sp
+
+
+def canon_for_twin(out, fixed):
+    """every occurrence and the name → uuid map of the group list, invented uuids renamed by first
+    occurrence in document order (the ORDER of the group list depends on the order in which the
+    names were first validated, which a staged history changes: not compared)"""
+    occs, groups = scan_output(out)
+    cn = Canon(fixed)
+    co = [(s, k, n, cn(u)) for s, k, n, u in occs]
+    return co, sorted((n, cn(u)) for n, u in sorted(groups))
+
+
+def fixed_map(ex, real, req):
+    fixed = {}
+    for us in ex.values():
+        for u in us:
+            fixed[u] = u
+    for i, (fu, f) in enumerate(zip(real["flow_uuids"] or [], req["container"]["flows"])):
+        if f["uuid"] == flow_placeholder(i):
+            fixed[fu] = flow_placeholder(i)
+    return fixed
+
+
+def check_case(spec, req, model, real, twin=None):
     """Returns (ties, violations, info) for one case."""
     ties, viol = [], []
     info = {"error": None, "known": []}
+    late = late_explicit(spec)
+    out_stage = real.get("out_stage")
     renders = model.get("renders") if isinstance(model, dict) else None
     if renders is None:
         ties.append({"what": "driver error", "model": model})
@@ -659,7 +946,7 @@ def check_case(spec, req, model, real):
 
     # ---- B0: the request is what the real object graph holds before validation
     if real["pre_walk"] is not None:
-        want = flat_inputs(req)
+        want = flat_inputs({"container": req["stage0"]} if "stage0" in req else req)
         got = [(s, k, n, fixed.get(u, u) if u else None) for s, k, n, u in real["pre_walk"]]
         if spec["mode"] == "sheets":
             # node partition and uuids carried by objects only; cases/actions compared flat
@@ -689,8 +976,15 @@ def check_case(spec, req, model, real):
                 if u.startswith("«flow-uuid-") or (real["flow_uuids"] is None and UUID4.match(u) and u not in fixed):
                     return "«flow»"
                 return u
-            mm = (str(m_err["name"]), cf(m_err["new"].get("g")), cf(m_err["recorded"].get("g")))
-            rr = (name, cf(new), cf(rec))
+            def mu(j):
+                # staged histories only: the recorded uuid may be one the dictionary invented at an earlier validation
+                return cf(j["g"]) if "g" in j else "«invented»"
+
+            def ru(u):
+                u = cf(u)
+                return "«invented»" if spec.get("stages") and UUID4.match(u) and u not in fixed else u
+            mm = (str(m_err["name"]), mu(m_err["new"]), mu(m_err["recorded"]))
+            rr = (name, ru(new), ru(rec))
             if mm != rr:
                 ties.append({"what": "different conflict reported (name, new uuid, recorded uuid)", "model": mm, "real": rr})
     if m_err is None and real["error"] is None and len(real["outs"]) != n_ok_model:
@@ -739,7 +1033,7 @@ def check_case(spec, req, model, real):
         # explicit wins (flow placeholders: the flow's own uuid, read from the object graph)
         inv_fixed = {v: k for k, v in fixed.items()}
         for (k, n), us in ex.items():
-            if len(us) == 1:
+            if len(us) == 1 and (k, n) not in late:
                 want_u = inv_fixed.get(next(iter(us)), next(iter(us)))
                 have = byname.get((k, n))
                 if have is not None and have != {want_u}:
@@ -753,7 +1047,7 @@ def check_case(spec, req, model, real):
         for u, lab in cn.map.items():
             if not UUID4.match(str(u)):
                 viol.append({"what": "an invented uuid is not a uuid4", "render": i + 1, "uuid": u})
-        if i > 0 and out != real["outs"][i - 1]:
+        if i > 0 and out != real["outs"][i - 1] and (out_stage is None or out_stage[i] == out_stage[i - 1]):
             viol.append({"what": "repeated render() changed the output", "render": i + 1,
                          "before": scan_output(real["outs"][i - 1]), "after": (occs, groups)})
 
@@ -782,9 +1076,26 @@ def check_case(spec, req, model, real):
             viol.append({"what": "the container must be rejected (two explicit uuids for one name / trigger for a flow that does not exist) but rendered without error",
                          "reasons": rest})
     if not reasons and real_failed:
-        viol.append({"what": "a consistent container was rejected", "error": real["error"], "logs": real["logs"][:3]})
+        parsed = (real["error"] or {}).get("parsed")
+        if late and real["error"] and real["error"]["type"] == "conflict" and parsed and any(parsed[0] == n for _, n in late):
+            info["late_explicit_rejected"] = True
+        else:
+            viol.append({"what": "a consistent container was rejected", "error": real["error"], "logs": real["logs"][:3]})
+    # ---- C, staged histories: the last render is what a container built in one go renders
+    if twin is not None and not reasons and not late and real["outs"]:
+        if twin["error"] or not twin["outs"]:
+            viol.append({"what": "the same content built in one go is rejected, built in stages it renders", "twin_error": twin["error"]})
+        else:
+            so, sg = canon_for_twin(real["outs"][-1], fixed)
+            to, tg = canon_for_twin(twin["outs"][-1], fixed_map(ex, twin, req))
+            if real["error"] is None and (so != to or sg != tg):
+                viol.append({"what": "a container built in stages and rendered after every stage ends up with other uuid bindings than the same content built in one go",
+                             "staged": {"occs": [x for x, y in zip(so, to) if x != y][:6] or len(so), "groups": sg},
+                             "one_go": {"occs": [y for x, y in zip(so, to) if x != y][:6] or len(to), "groups": tg}})
+            info["twin_compared"] = real["error"] is None
     if real["error"] and real["error"]["type"].startswith("other:"):
         viol.append({"what": "unexpected exception", "error": real["error"]})
+    info["n_outs"] = len(real["outs"])
     info["expected_error"] = bool(reasons)
     info["expect"] = sorted({r[0] for r in reasons}) or ["ok"]
     return ties, viol, info
@@ -822,7 +1133,11 @@ def worker(specs):
     out = []
     for spec, req, m in zip(specs, reqs, answers):
         real = run_real(copy.deepcopy(spec), req)
-        ties, viol, info = check_case(spec, req, m, real)
+        twin = None
+        if spec.get("stages"):
+            tw = twin_of(spec)
+            twin = run_real(tw, model_request(tw))
+        ties, viol, info = check_case(spec, req, m, real, twin)
         # counterfactual test of every attribution to a known finding
         for fid, detail in list(info["known"]):
             sp2 = repair(spec, fid, detail)
@@ -1054,6 +1369,167 @@ def gen_spec(rng: random.Random, mode: str, avoid_known=True):
         if trigger_only_referenced(req) or block_objid_lost(spec):
             return None
     return spec
+
+
+def gen_staged(rng: random.Random):
+    """A history: an api-mode container built in 2-3 stages, rendered (1-2 times) after every
+    stage.  Every piece of the content gets the stage at which it is added — a flow, a node of a
+    flow, a group action of a node, a has_group case of a router, a campaign, an event of a
+    campaign, a trigger — never before its parent; later pieces are appended (lists are kept in
+    stage order, so the one-go twin holds the same content in the same order).  Kept away from:
+    a trigger added before its flow (rightly rejected at that time), a name whose first explicit
+    uuid arrives after the name was validated (`late_explicit`), a late has_group case equal to
+    an existing one (add_choice only updates the destination then)."""
+    spec = None
+    mode = rng.choice(["api", "api", "dict"])   # dict: an imported export (from_dict) edited through the API afterwards
+    for _ in range(20):
+        spec = gen_spec(rng, mode, avoid_known=False)
+        if spec["flows"] and any(nd["t"] in ("actions", "split") for f in spec["flows"] for nd in f["nodes"]):
+            break
+    k = rng.choice([2, 2, 3])
+    p_late = rng.choice([0.3, 0.5, 0.8])
+
+    def later(s0):
+        return rng.randint(s0, k - 1) if rng.random() < p_late else s0
+
+    for f in spec["flows"]:
+        f["stage"] = later(0) if rng.random() < 0.5 else 0
+    spec["flows"].sort(key=stage_of)
+    for f in spec["flows"]:
+        for nd in f["nodes"]:
+            nd["stage"] = later(f["stage"])
+        f["nodes"].sort(key=stage_of)
+        for nd in f["nodes"]:
+            if nd["t"] == "actions":
+                for a in nd["actions"]:
+                    a["stage"] = later(nd["stage"])
+                nd["actions"].sort(key=stage_of)
+            elif nd["t"] == "split":
+                if rng.random() < 0.5:
+                    # a router that is validated with some (or none) of its cases and gets more later
+                    g = rng.choice(GROUP_NAMES)
+                    if all(c[0] != g for c in nd["cases"]):
+                        nd["cases"].append([g, None])
+                nd["case_stages"] = sorted(later(nd["stage"]) for _ in nd["cases"])
+    for c in spec["campaigns"]:
+        c["stage"] = later(0)
+    spec["campaigns"].sort(key=stage_of)
+    for c in spec["campaigns"]:
+        for e in c["events"]:
+            e["stage"] = later(c["stage"])
+        c["events"].sort(key=stage_of)
+    for t in spec["triggers"]:
+        t["stage"] = later(0)
+    spec["stages"] = k
+    spec["stage_renders"] = [rng.choice([1, 1, 2]) for _ in range(k)]
+    spec["renders"] = sum(spec["stage_renders"])
+    # ---- keep away from …
+    # (1) a flow defined after it was referenced (its own uuid is a late explicit one): defined earlier
+    first = {}
+    for kind, name, stg, u, is_def in staged_slots(spec):
+        first[kind, name] = min(first.get((kind, name), stg), stg)
+    for f in spec["flows"]:
+        f["stage"] = min(f["stage"], first["flow", f["name"]])
+    spec["flows"].sort(key=stage_of)
+    # (2) a trigger added before the flow it starts
+    fstage = {}
+    for f in spec["flows"]:
+        fstage.setdefault(f["name"], f["stage"])
+    for t in spec["triggers"]:
+        t["stage"] = max(t["stage"], fstage.get(t["flow"][0], 0))
+    spec["triggers"].sort(key=stage_of)
+    # (3) explicit uuids arriving after the name was validated without one: not given
+    late = set(late_explicit(spec))
+    if late:
+        first = {}
+        for kind, name, stg, u, is_def in staged_slots(spec):
+            first[kind, name] = min(first.get((kind, name), stg), stg)
+
+        def strip(kind, pair, stg):
+            if (kind, pair[0]) in late and stg > first[kind, pair[0]]:
+                pair[1] = None
+
+        for f in spec["flows"]:
+            for nd in f["nodes"]:
+                if nd["t"] == "actions":
+                    for a in nd["actions"]:
+                        for g in a["groups"]:
+                            strip("group", g, max(nd["stage"], a["stage"]))
+                elif nd["t"] == "enter":
+                    strip("flow", nd["flow"], nd["stage"])
+                elif nd["t"] == "split":
+                    for g, cs in zip(nd["cases"], nd["case_stages"]):
+                        strip("group", g, max(nd["stage"], cs))
+        for c in spec["campaigns"]:
+            strip("group", c["group"], c["stage"])
+            for e in c["events"]:
+                if e.get("flow"):
+                    strip("flow", e["flow"], max(c["stage"], e["stage"]))
+        for t in spec["triggers"]:
+            strip("flow", t["flow"], t["stage"])
+            for g in t["groups"] + t["exclude"]:
+                strip("group", g, t["stage"])
+    # (4) has_group cases of one router: identical ones are merged by add_choice; a late case
+    # with an explicit uuid would be identical to a validated case of that name
+    for f in spec["flows"]:
+        for nd in f["nodes"]:
+            if nd["t"] == "split":
+                seen, names, cases, stages = set(), {}, [], []
+                for g, cs in zip(nd["cases"], nd["case_stages"]):
+                    if (g[0], g[1]) in seen or (g[1] and names.get(g[0], cs) < cs):
+                        continue
+                    seen.add((g[0], g[1]))
+                    names.setdefault(g[0], cs)
+                    cases.append(g)
+                    stages.append(cs)
+                nd["cases"], nd["case_stages"] = cases, stages
+    if late_explicit(spec):
+        return None
+    if trigger_only_referenced(model_request(spec)):
+        return None
+    return spec
+
+
+def staged_strata(spec):
+    """what is added to objects that were validated before / to the container, after the first render"""
+    out = {}
+
+    def hit(k, n=1):
+        out[k] = out.get(k, 0) + n
+
+    hit(f"staged.stages={spec['stages']}")
+    for f in spec["flows"]:
+        if stage_of(f) > 0:
+            hit("staged.flow_added_after_a_render")
+        for nd in f["nodes"]:
+            ns = max(stage_of(nd), stage_of(f))
+            if ns > stage_of(f):
+                hit("staged.node_added_to_a_flow_rendered_before")
+            if nd["t"] == "actions":
+                for a in nd["actions"]:
+                    if stage_of(a) > ns:
+                        hit("staged.group_action_added_to_a_node_rendered_before")
+            elif nd["t"] == "split":
+                old = {g[0] for g, cs in zip(nd["cases"], case_stages(nd)) if cs <= ns}
+                for g, cs in zip(nd["cases"], case_stages(nd)):
+                    if cs > ns:
+                        hit("staged.has_group_case_added_to_a_router_rendered_before")
+                        if g[1]:
+                            hit("staged.has_group_case_added_to_a_router_rendered_before.with_explicit_uuid")
+                        if g[0] in old:
+                            hit("staged.has_group_case_added_to_a_router_rendered_before.group_already_tested_by_that_router")
+                if not old and any(cs > ns for cs in case_stages(nd)):
+                    hit("staged.router_rendered_without_cases_gets_its_first_case_later")
+    for c in spec["campaigns"]:
+        if stage_of(c) > 0:
+            hit("staged.campaign_added_after_a_render")
+        for e in c["events"]:
+            if stage_of(e) > stage_of(c):
+                hit("staged.event_added_to_a_campaign_rendered_before")
+    for t in spec["triggers"]:
+        if stage_of(t) > 0:
+            hit("staged.trigger_added_after_a_render")
+    return out
 
 
 def merge_strata(spec):
@@ -1313,6 +1789,58 @@ CORPUS = [
     {"mode": "dict", "renders": 2, "blocks": {}, "groups": [["G1", None], ["G1", None]], "group_meta": [{"query": ""}, {"system": True}],
      "flows": [{"name": "F1", "uuid": "u-flow-F1-a", "nodes": [{"t": "split", "cases": [["G2", "u-group-G1-a"], ["G1", "u-group-G1-a"]]}]}],
      "campaigns": [], "triggers": []},
+    # ---- staged histories: built in stages through the API, rendered after every stage
+    # a router rendered with one case gets two more (one with its uuid, one without); a trigger
+    # restricted to one of the new groups is added with them
+    {"mode": "api", "add_flow": True, "blocks": {}, "groups": [], "group_meta": [], "campaigns": [],
+     "stages": 2, "stage_renders": [1, 2], "renders": 3,
+     "flows": [{"name": "F1", "uuid": None, "stage": 0, "nodes": [
+         {"t": "split", "stage": 0, "cases": [["G1", None], ["G2", "u-group-G2-a"], ["G3", None]], "case_stages": [0, 1, 1]}]}],
+     "triggers": [{"flow": ["F1", None], "groups": [["G2", None]], "exclude": [], "stage": 1}]},
+    # a router rendered WITHOUT cases, cases come in two further stages; the groups are used elsewhere
+    # (listed group, action added to an old node, campaign added later, event added to an old campaign)
+    {"mode": "api", "add_flow": False, "blocks": {}, "groups": [["G1", "u-group-G1-a"]], "group_meta": [{"query": "age > 18"}],
+     "stages": 3, "stage_renders": [1, 1, 1], "renders": 3,
+     "flows": [{"name": "F1", "uuid": "u-flow-F1-a", "stage": 0, "nodes": [
+         {"t": "split", "stage": 0, "cases": [["G1", None], ["G2", None], ["G2", "u-group-G2-a"], ["G4", None]], "case_stages": [1, 1, 1, 2]},
+         {"t": "actions", "stage": 0, "actions": [{"t": "add", "stage": 0, "groups": [["G3", None]]},
+                                                   {"t": "remove", "stage": 2, "groups": [["G2", None], ["G4", None]]}]},
+         {"t": "enter", "stage": 1, "flow": ["F2", None]}]},
+               {"name": "F2", "uuid": None, "stage": 1, "nodes": [{"t": "split", "stage": 2, "cases": [["G4", None]], "case_stages": [2]}]}],
+     "campaigns": [{"name": "c0", "group": ["G3", None], "by_name": True, "stage": 0,
+                    "events": [{"type": "F", "flow": ["F1", None], "stage": 0}, {"type": "F", "flow": ["F2", None], "stage": 1}]},
+                   {"name": "c1", "group": ["G2", None], "by_name": False, "stage": 1, "events": []}],
+     "triggers": [{"flow": ["F1", None], "groups": [], "exclude": [["G3", None]], "stage": 0},
+                  {"flow": ["F2", None], "groups": [["G4", None]], "exclude": [], "stage": 2}]},
+    # an imported export (from_dict) is rendered, then edited through the API: a case and a group action
+    # added to the imported router / node, a flow, a campaign and a trigger added to the container
+    {"mode": "dict", "add_flow": True, "blocks": {}, "groups": [["G1", "u-group-G1-a"], ["G2", None]], "group_meta": [{"count": 7}, {}],
+     "stages": 2, "stage_renders": [2, 2], "renders": 4,
+     "flows": [{"name": "F1", "uuid": "u-flow-F1-a", "stage": 0, "nodes": [
+         {"t": "split", "stage": 0, "cases": [["G1", None], ["G3", None], ["G2", None]], "case_stages": [0, 1, 1]},
+         {"t": "actions", "stage": 0, "actions": [{"t": "add", "stage": 0, "groups": [["G2", None]]},
+                                                   {"t": "add", "stage": 1, "groups": [["G3", "u-group-G3-a"], ["G1", None]]}]}]},
+               {"name": "F2", "uuid": None, "stage": 1, "nodes": [{"t": "enter", "stage": 1, "flow": ["F1", None]},
+                                                                   {"t": "split", "stage": 1, "cases": [["G3", None]], "case_stages": [1]}]}],
+     "campaigns": [{"name": "c0", "group": ["G3", None], "by_name": True, "stage": 1, "events": [{"type": "F", "flow": ["F2", None], "stage": 1}]}],
+     "triggers": [{"flow": ["F1", None], "groups": [["G1", None]], "exclude": [], "stage": 0},
+                  {"flow": ["F2", None], "groups": [["G3", None]], "exclude": [["G2", None]], "stage": 1}]},
+    # two different explicit uuids, the second one on a case added after a render: must be rejected
+    {"mode": "api", "add_flow": True, "blocks": {}, "groups": [], "group_meta": [], "campaigns": [], "triggers": [],
+     "stages": 2, "stage_renders": [1, 1], "renders": 2,
+     "flows": [{"name": "F1", "uuid": None, "stage": 0, "nodes": [
+         {"t": "split", "stage": 0, "cases": [["G1", "u-group-G1-a"], ["G1", "u-group-G1-b"]], "case_stages": [0, 1]}]}]},
+    # as coded (`late_explicit`): the first explicit uuid of a name arrives after the name was rendered
+    # with an invented one → ValueError(multiple uuids); tie only, the rejection is tolerated
+    {"mode": "api", "add_flow": True, "blocks": {}, "groups": [], "group_meta": [], "campaigns": [], "triggers": [],
+     "stages": 2, "stage_renders": [1, 1], "renders": 2,
+     "flows": [{"name": "F1", "uuid": None, "stage": 0, "nodes": [
+         {"t": "split", "stage": 0, "cases": [["G1", None], ["G1", "u-group-G1-a"]], "case_stages": [0, 1]}]}]},
+    # … a flow that an enter_flow action of a rendered flow refers to is defined afterwards (add_flow raises)
+    {"mode": "api", "add_flow": True, "blocks": {}, "groups": [], "group_meta": [], "campaigns": [], "triggers": [],
+     "stages": 2, "stage_renders": [1, 1], "renders": 2,
+     "flows": [{"name": "F1", "uuid": None, "stage": 0, "nodes": [{"t": "enter", "stage": 0, "flow": ["F2", None]}]},
+               {"name": "F2", "uuid": None, "stage": 1, "nodes": []}]},
     # three plain names on one uuid (no attributes anywhere)
     {"mode": "api", "renders": 2, "add_flow": False, "blocks": {}, "groups": [["G1", "u-group-G1-a"], ["G2", "u-group-G1-a"]],
      "flows": [{"name": "F1", "uuid": "u-flow-F1-a", "nodes": [{"t": "actions", "actions": [{"t": "add", "groups": [["G3", "u-group-G1-a"], ["G2", None]]}]}]}],
@@ -1338,6 +1866,16 @@ def _fold(ck, specs, results, stream):
             ck.count(k, v)
         if spec["mode"] == "sheets" and spec["groups"]:
             ck.count(f"{stream}.sheets.parsed_into_container_listing_groups")
+        if spec.get("stages"):
+            ck.count(f"{stream}.{spec['mode']}.staged")
+            for k, v in staged_strata(spec).items():
+                ck.count(k, v)
+            if info.get("twin_compared"):
+                ck.count("staged.last_render_compared_with_the_one_go_twin")
+            if info["error"] and info.get("n_outs"):
+                ck.count("staged.rejected_at_a_later_stage_after_successful_renders")
+            if info.get("late_explicit_rejected"):
+                ck.count("staged.late_explicit_uuid_rejected_as_coded")
         ck.count(f"renders={spec['renders']}")
         ck.count("outcome." + (info["error"] or "rendered"))
         ck.count("occurrences", r["n_occ"])
@@ -1368,7 +1906,7 @@ def run(ck: core.Check):
         "0/0.1/0.5), rendered 1-3 times; the containers may list groups before validation (from_dict, "
         "RapidProContainer(groups=…), also as the target the sheets are parsed into), a third of those groups carrying "
         "query/status/system/count; in a quarter of the cases two or three different group names are bound to one "
-        "explicit uuid (renamed group / obj_id equal to another group's uuid), the listed ones mostly with attributes; non-trivial = at least two reference occurrences; distinct = distinct specs"
+        "explicit uuid (renamed group / obj_id equal to another group's uuid), the listed ones mostly with attributes; one case in seven is a STAGED history: a container built through the API (two thirds) or imported with from_dict and then edited through the API (one third) in 2-3 stages and rendered 1-2 times after every stage, each flow / node / group action / has_group case / campaign / event / trigger added at a random stage not before its parent (so routers, nodes, flows, campaigns that were already rendered get more content), every render compared with the model (`uuid.staged`: Uuid.runStage) and judged by the statement, the last render compared with the render of the same content built in one go up to invented uuids; non-trivial = at least two reference occurrences; distinct = distinct specs"
     )
     ck.assumptions = [
         "Python dict keeps insertion order and the position of an updated key (modelled by dset; exercised by the tie on the order of the top-level group list)",
@@ -1379,7 +1917,8 @@ def run(ck: core.Check):
         "trigger_unknown_flow_rejected is proved for the reading the code implements (flow name not in flow_dict = neither defined nor mentioned by any action/campaign/obj_id); the full reading (not DEFINED) is false on the unchanged tree: Lean negative witness trigger_unknown_flow_rejected_full_false, known finding F-C06-b",
         "sheet rows merged into an existing node (same node_name) record nothing at parse time (modelled as coded: only their Group object carries the obj_id); merging of start_new_flow / split rows does not exist in the code",
         "nested insert_as_block (a block inserting a block) is neither generated nor modelled (each level gets its own throw-away container in the code)",
-        "modifications of the container between two renders (adding flows/triggers after a render) are outside the statement and not explored",
+        "staged histories (content added between two renders) are generated through the public API only (add_flow, add_node, add_action, add_choice, add_campaign, add_event, add_trigger on an api-built or from_dict-imported container; sheets parsed into a container that was rendered before are not); removing or editing objects between renders is not explored",
+        "a name whose FIRST explicit uuid arrives after the name was validated (rendered with an invented uuid), e.g. a flow defined by add_flow after a rendered flow referred to it: the unchanged code rejects the history with ValueError(multiple uuids); the statement does not say what should happen, modelled as coded, exercised by two corpus shapes (rejection tolerated), kept out of the random stream",
     ]
     if not core.DRIVER_BIN.exists():
         raise core.Infra("driver not built:\n" + ck.lean.log[-2000:])
@@ -1423,8 +1962,8 @@ def run(ck: core.Check):
     def gen(n, seed_rng):
         out = []
         while len(out) < n:
-            mode = seed_rng.choice(["sheets", "dict", "api"])
-            s = gen_spec(seed_rng, mode)
+            mode = seed_rng.choice(["sheets", "dict", "api", "sheets", "dict", "api", "staged"])
+            s = gen_staged(seed_rng) if mode == "staged" else gen_spec(seed_rng, mode)
             if s is not None:
                 out.append(s)
         return out
@@ -1440,7 +1979,13 @@ def run(ck: core.Check):
                  "sheets.merged_obj_id_after_same_group_without_or_other_obj_id",
                  "groups.listed_with_attributes", "alias.case_with_two_names_on_one_explicit_uuid",
                  "alias.listed_group_with_attributes_shares_its_uuid_with_another_referenced_name",
-                 "main.sheets.parsed_into_container_listing_groups"):
+                 "main.sheets.parsed_into_container_listing_groups", "main.api.staged", "main.dict.staged",
+                 "staged.has_group_case_added_to_a_router_rendered_before",
+                 "staged.has_group_case_added_to_a_router_rendered_before.with_explicit_uuid",
+                 "staged.group_action_added_to_a_node_rendered_before", "staged.node_added_to_a_flow_rendered_before",
+                 "staged.flow_added_after_a_render", "staged.trigger_added_after_a_render",
+                 "staged.campaign_added_after_a_render", "staged.event_added_to_a_campaign_rendered_before",
+                 "staged.last_render_compared_with_the_one_go_twin"):
         if not ck.strata.get(need):
             raise core.Infra(f"generator self-check: stratum {need} is empty")
 
@@ -1491,7 +2036,11 @@ def replay(path):
                 print("   ", o)
         m = core.Driver().results([req])[0]
         print("model:", json.dumps(m, ensure_ascii=False)[:3000])
-        ties, viol, info = check_case(spec, req, m, real)
+        twin = None
+        if spec.get("stages"):
+            tw = twin_of(spec)
+            twin = run_real(tw, model_request(tw))
+        ties, viol, info = check_case(spec, req, m, real, twin)
         print("violations:", json.dumps(viol, ensure_ascii=False, default=str)[:3000])
         return 1 if viol else 0
     return 0
